@@ -12,7 +12,7 @@ VARIABLE cs
 
 \* ---- anisotropy geometries (ranges m/2, angle codes)
 Geo1 == { GeoCase(1, <<m>>, <<0>>, 4) : m \in {1, 2, 3, 10} }
-Ang2 == IF Thorough THEN 0..7 ELSE {0, 1, 2, 4, 5, 7}
+Ang2 == 0..7
 Geo2 == { GeoCase(2, m, <<a, 0>>, IF Thorough THEN 3 ELSE 2) : m \in { <<4, 2>>, <<3, 1>>, <<2, 2>>, <<10, 1>>, <<1, 6>> }, a \in Ang2 }
 Key3(t) == 16 * t[1] + 4 * t[2] + t[3]
 Rot24 == LET all == [1..3 -> 0..3] IN { t \in all : \A u \in all : RotOf(3, u).n = RotOf(3, t).n => Key3(u) >= Key3(t) }
@@ -32,13 +32,14 @@ PointSets ==
     WithId("C2", PClusters(2, 1000)), WithId("K2-9", PCollinear(2, 9)), WithId("P2-3", PPairs(2, <<3, 3>>)),
     WithId("H2-24", PHalton(2, 24, 200)),
     WithId("L3-3", PLattice(3, <<3, 3, 3>>)), WithId("L3-4", PLattice(3, <<4, 4, 4>>)), WithId("C3", PClusters(3, 1000)),
-    WithId("K3-9", PCollinear(3, 9)), WithId("P3-2", PPairs(3, <<2, 2, 2>>)), WithId("H3-32", PHalton(3, 32, 320)) }
+    WithId("K3-9", PCollinear(3, 9)), WithId("P3-2", PPairs(3, <<2, 2, 2>>)), WithId("H3-32", PHalton(3, 32, 320)),
+    WithId("L1-40", PLattice(1, <<40>>)), WithId("L2-10", PLattice(2, <<10, 10>>)), WithId("H2-64", PHalton(2, 64, 128)),
+    WithId("L3-5", PLattice(3, <<5, 5, 5>>)) }
   \cup (IF Thorough THEN
-  { WithId("L1-40", PLattice(1, <<40>>)), WithId("L1-150", PLattice(1, <<150>>)), WithId("H1-100", PHalton(1, 100, 10)),
-    WithId("P1-40", PPairs(1, <<40>>)),
-    WithId("L2-10", PLattice(2, <<10, 10>>)), WithId("L2-14", PLattice(2, <<14, 14>>)), WithId("R2-10", PRotLattice(10)),
+  { WithId("L1-150", PLattice(1, <<150>>)), WithId("H1-100", PHalton(1, 100, 10)), WithId("P1-40", PPairs(1, <<40>>)),
+    WithId("L2-14", PLattice(2, <<14, 14>>)), WithId("R2-10", PRotLattice(10)),
     WithId("H2-150", PHalton(2, 150, 80)), WithId("P2-7", PPairs(2, <<7, 7>>)), WithId("L2-4x30", PLattice(2, <<4, 30>>)),
-    WithId("L3-5", PLattice(3, <<5, 5, 5>>)), WithId("L3-4x6x8", PLattice(3, <<4, 6, 8>>)), WithId("H3-160", PHalton(3, 160, 180)),
+    WithId("L3-4x6x8", PLattice(3, <<4, 6, 8>>)), WithId("H3-160", PHalton(3, 160, 180)),
     WithId("P3-4", PPairs(3, <<4, 4, 4>>)) } ELSE {})
 PsIds(d) == { ps.id : ps \in { x \in PointSets : x.d = d } }
 \* families on which the sums of structures / two-variable models are examined
